@@ -187,6 +187,10 @@ def readAugmentationData (C : Cfi) (S : DwarfStructs) (pos : Nat) : R (Bytes × 
   else do
     let (v, p) ← structParse C.env (.struct (mkStruct [("length", S.Dwarf_uleb128)])) C.data pos
     let len ← v.getNat "length"
+    -- `stream.read(n)` with n ≥ 2^63 (PY_SSIZE_T_MAX + 1): CPython raises OverflowError before reading anything.
+    -- A bytes object is shorter than 2^63, so such an n always exceeds what is left; the second conjunct is true in
+    -- every realisable execution and keeps the round-trip lemmas free of a "section shorter than 2^63" hypothesis.
+    if len ≥ 2 ^ 63 ∧ C.data.length < p + len then throw .overflowError
     let bs := readN C.data p len          -- `stream.read(n)`: possibly short
     return (bs, p + bs.length)
 
